@@ -537,7 +537,7 @@ def run_case(p):
         if p.get('nvars', 1) == 1:
             got, want, q = O.run_single(doms[0], cond)
             ok = O.same_list_by_identity(got, want)
-            if ok and p.get('reeval'):
+            if ok and p.get('reeval', True):
                 got2 = list(q.evaluate())
                 ok = O.same_list_by_identity(got2, want)
                 got = got2
@@ -554,6 +554,14 @@ def run_case(p):
                 sel = sorted(r2.sample(range(len(doms)), k))
             got, want, q = O.run_multi(doms, cond, sel)
             ok = sorted(got) == sorted(want) if (p.get('count', True) and sel is None) else set(got) == set(want)
+            if ok and p.get('reeval', True):
+                # the same query object evaluated again gives the same rows (C04 / C05 are part of every property's
+                # precondition "whatever was evaluated before")
+                xs = q._child_.selected_variables
+                got2 = [tuple(id(r[v]) for v in xs) for r in q.evaluate()]
+                ok = sorted(got2) == sorted(want) if (p.get('count', True) and sel is None) else set(got2) == set(want)
+                if not ok:
+                    got = got2
             if not ok:
                 return {'condition': repr(cond), 'domains': repr(doms), 'got_rows': len(got), 'want_rows': len(want),
                         'missing': len(set(want) - set(got)), 'extra': len(set(got) - set(want))}
